@@ -366,3 +366,224 @@ Proof.
   - apply filter_ext_in. intros x _. apply predb_ok.
     apply pred_and; [apply pred_begin | apply pred_end].
 Qed.
+
+(* ================= sequences of limit contributions ================= *)
+
+Lemma fold_limit_on a t : fold_left limit_on t (Some a) = Some (and_all a t).
+Proof. revert a. induction t as [|e t IH]; intros a; cbn [fold_left and_all limit_on]; [reflexivity | apply IH]. Qed.
+
+(* the handler's accumulation is the left-nested conjunction *)
+Lemma limit_acc_combine l : limit_acc l = combine_limits l.
+Proof. destruct l as [|e t]; [reflexivity|]. unfold limit_acc. cbn [fold_left limit_on combine_limits]. apply fold_limit_on. Qed.
+
+Lemma report_with_posts now opts period query l :
+  report_with now opts period query l = report_posts (all_limits now opts period query) l.
+Proof. unfold report_with, report_posts. rewrite limit_acc_combine. reflexivity. Qed.
+
+Definition sel_all (es : list expr) (p : posting) : bool := forallb (fun e => predb e p) es.
+
+Lemma predb_and_all acc es l p :
+  total_on acc l -> Forall (fun e => total_on e l) es -> In p l ->
+  predb (and_all acc es) p = predb acc p && sel_all es p.
+Proof.
+  revert acc. induction es as [|e es IH]; intros acc Ha Hes Hp; cbn [and_all sel_all forallb].
+  - rewrite andb_true_r. reflexivity.
+  - inversion Hes; subst. rewrite IH; [| apply total_and; assumption | assumption | assumption].
+    destruct (Ha p Hp) as [a Hpa]. destruct (H1 p Hp) as [b Hpb].
+    rewrite (predb_ok _ _ _ (pred_and _ _ _ _ _ Hpa Hpb)), (predb_ok _ _ _ Hpa), (predb_ok _ _ _ Hpb).
+    unfold sel_all. rewrite andb_assoc. reflexivity.
+Qed.
+
+Lemma filter_true {A} (l : list A) : filter (fun _ => true) l = l.
+Proof. induction l as [|x l IH]; cbn [filter]; [reflexivity | rewrite IH; reflexivity]. Qed.
+
+(* whatever the contributions, the report is the unfiltered list filtered by "every condition holds" *)
+Lemma report_posts_sel es l :
+  Forall (fun e => total_on e l) es -> report_posts es l = Ok (filter (sel_all es) l).
+Proof.
+  intros H. destruct es as [|e es].
+  - unfold report_posts, sel_all. cbn [combine_limits forallb]. rewrite filter_true. reflexivity.
+  - inversion H; subst. unfold report_posts. cbn [combine_limits].
+    rewrite filter_posts_spec by (apply total_and_all; assumption).
+    f_equal. apply filter_ext_in. intros p Hp.
+    rewrite (predb_and_all e es l p H2 H3 Hp). reflexivity.
+Qed.
+
+Lemma sel_all_same_set es es' p :
+  (forall e, In e es <-> In e es') -> sel_all es p = sel_all es' p.
+Proof.
+  intros H. unfold sel_all.
+  destruct (forallb (fun e => predb e p) es) eqn:E1; destruct (forallb (fun e => predb e p) es') eqn:E2;
+    try reflexivity.
+  - rewrite forallb_forall in E1. assert (forallb (fun e => predb e p) es' = true).
+    { apply forallb_forall. intros x Hx. apply E1, H, Hx. } congruence.
+  - rewrite forallb_forall in E2. assert (forallb (fun e => predb e p) es = true).
+    { apply forallb_forall. intros x Hx. apply E2, H, Hx. } congruence.
+Qed.
+
+(* only the SET of conditions matters: order and multiplicity of the contributions do not *)
+Lemma limits_same_set es es' l :
+  (forall e, In e es <-> In e es') ->
+  Forall (fun e => total_on e l) es -> Forall (fun e => total_on e l) es' ->
+  report_posts es l = report_posts es' l.
+Proof.
+  intros H T T'. rewrite !report_posts_sel by assumption. f_equal.
+  apply filter_ext_in. intros p _. apply sel_all_same_set. exact H.
+Qed.
+
+Lemma limits_permutation es es' l :
+  Permutation es es' -> Forall (fun e => total_on e l) es ->
+  report_posts es l = report_posts es' l.
+Proof.
+  intros P T. apply limits_same_set; [| exact T |].
+  - intros e. split; [apply Permutation_in; exact P | apply Permutation_in, Permutation_sym; exact P].
+  - rewrite Forall_forall in *. intros e He. apply T. eapply Permutation_in; [apply Permutation_sym; exact P | exact He].
+Qed.
+
+(* giving a condition again, anywhere, changes nothing *)
+Lemma limits_repeat es1 es2 e l :
+  In e (es1 ++ es2) -> Forall (fun x => total_on x l) (es1 ++ es2) ->
+  report_posts (es1 ++ e :: es2) l = report_posts (es1 ++ es2) l.
+Proof.
+  intros Hin T. apply limits_same_set; [| | exact T].
+  - intros x. rewrite !in_app_iff. cbn [In]. rewrite in_app_iff in Hin. split; [|tauto].
+    intros [H|[<-|H]]; tauto.
+  - rewrite Forall_forall in *. intros x Hx. apply T.
+    rewrite in_app_iff in *. cbn [In] in Hx. destruct Hx as [H|[<-|H]]; tauto.
+Qed.
+
+(* the selected postings are the intersection of what each contribution selects alone *)
+Lemma limits_intersection es l :
+  Forall (fun e => total_on e l) es ->
+  exists r, report_posts es l = Ok r /\ subseq r l /\
+    forall p, In p r <-> In p l /\
+      forall e, In e es -> exists re, report_posts [e] l = Ok re /\ In p re.
+Proof.
+  intros T. exists (filter (sel_all es) l).
+  split; [apply report_posts_sel; exact T|]. split; [apply filter_subseq|].
+  intros p. rewrite filter_In. unfold sel_all. rewrite forallb_forall.
+  rewrite Forall_forall in T.
+  split.
+  - intros [Hin Hall]. split; [exact Hin|]. intros e He.
+    exists (filter (predb e) l). split.
+    + unfold report_posts. cbn [combine_limits and_all]. apply filter_posts_spec. apply T. exact He.
+    + apply filter_In. split; [exact Hin | apply Hall; exact He].
+  - intros [Hin Hall]. split; [exact Hin|]. intros e He.
+    destruct (Hall e He) as (re & Hre & Hp).
+    unfold report_posts in Hre. cbn [combine_limits and_all] in Hre.
+    rewrite filter_posts_spec in Hre by (apply T; exact He). injection Hre as <-.
+    apply filter_In in Hp. apply Hp.
+Qed.
+
+(* the fixed conditions of -C -U --pending -R -L -c, -b, -e never fail *)
+Lemma contrib_total today k l :
+  match k with KLimit e => total_on e l | _ => True end -> total_on (contrib_expr today k) l.
+Proof.
+  destruct k; cbn [contrib_expr]; intros H; try exact H; try apply total_begin; try apply total_end;
+    intros p _; unfold pred; cbn [eval eval_ident bind truth value_cmp value_lt];
+    try (eexists; reflexivity).
+  destruct (p_state p); cbn; eexists; reflexivity.
+Qed.
+
+Lemma existsb_same_set {A} (f : A -> bool) l l' :
+  (forall x, In x l <-> In x l') -> existsb f l = existsb f l'.
+Proof.
+  intros H. destruct (existsb f l) eqn:E1; destruct (existsb f l') eqn:E2; try reflexivity.
+  - apply existsb_exists in E1 as (x & Hx & Hf).
+    assert (existsb f l' = true) by (apply existsb_exists; exists x; split; [apply H; exact Hx | exact Hf]). congruence.
+  - apply existsb_exists in E2 as (x & Hx & Hf).
+    assert (existsb f l = true) by (apply existsb_exists; exists x; split; [apply H; exact Hx | exact Hf]). congruence.
+Qed.
+
+(* today is --now's date unless an -e was given, and then it is the date of one of them *)
+Lemma today_cases opts : forall t0,
+  (fold_left (fun t k => match k with KEnd _ d => d | _ => t end) opts t0 = t0 /\
+   forall tx d, ~ In (KEnd tx d) opts) \/
+  (exists tx, In (KEnd tx (fold_left (fun t k => match k with KEnd _ d => d | _ => t end) opts t0)) opts).
+Proof.
+  induction opts as [|k opts IH]; intros t0; cbn [fold_left].
+  - left. split; [reflexivity | intros tx d []].
+  - destruct (IH (match k with KEnd _ d => d | _ => t0 end)) as [[E N]|[tx Hin]].
+    + destruct k; try (left; split; [exact E | intros tx0 d0 [Hk|Hk]; [discriminate | exact (N tx0 d0 Hk)]]).
+      right. exists txt. left. rewrite E. reflexivity.
+    + right. exists tx. right. exact Hin.
+Qed.
+
+Lemma pred_current txt t p : pred (ECmp CLe (EIdent IDate) (EConst txt (VDate t))) p = Ok (post_date p <=? t).
+Proof.
+  unfold pred. cbn [eval eval_ident bind value_cmp value_lt truth].
+  rewrite Z.leb_antisym. reflexivity.
+Qed.
+
+(* with the same options given, each condition of one sequence is implied by the other's *)
+Lemma all_limits_implied now opts opts' period query p :
+  (forall k, In k opts <-> In k opts') ->
+  (forall e, In e (all_limits now opts period query) -> predb e p = true) ->
+  forall e, In e (all_limits now opts' period query) -> predb e p = true.
+Proof.
+  intros H A e He. unfold all_limits, period_limits in *.
+  rewrite (existsb_same_set is_begin opts opts' H), (existsb_same_set is_end opts opts' H) in A.
+  rewrite in_app_iff in He. destruct He as [He|He].
+  2:{ apply A. rewrite in_app_iff. right. exact He. }
+  apply in_map_iff in He as (k & <- & Hk).
+  assert (Hk' : In k opts) by (apply H; exact Hk).
+  assert (Same : forall t, match k with KCurrent _ => False | _ => True end ->
+                           contrib_expr t k = contrib_expr (today_of now opts) k).
+  { intros t Hn. destruct k; try reflexivity. contradiction. }
+  destruct k as [e0|tb d|te d| | | | | |txt];
+    try (rewrite (Same _ I); apply A; rewrite in_app_iff; left; apply in_map; exact Hk').
+  (* -c: date<=today, today being one sequence's terminus *)
+  cbn [contrib_expr]. rewrite (predb_ok _ _ _ (pred_current txt _ p)).
+  unfold today_of. destruct (today_cases opts' now) as [[E N]|[tx Hin]].
+  - (* no -e at all: today is --now's date on both sides *)
+    rewrite E.
+    assert (E' : today_of now opts = now).
+    { unfold today_of. destruct (today_cases opts now) as [[E' _]|[tx Hin]]; [exact E'|].
+      exfalso. apply H in Hin. exact (N _ _ Hin). }
+    assert (Hc : predb (contrib_expr (today_of now opts) (KCurrent txt)) p = true).
+    { apply A. rewrite in_app_iff. left. apply in_map. exact Hk'. }
+    cbn [contrib_expr] in Hc. rewrite (predb_ok _ _ _ (pred_current txt _ p)), E' in Hc. exact Hc.
+  - (* today is the date of an -e that the other sequence has as well: date < it *)
+    apply H in Hin.
+    assert (Hc : predb (contrib_expr (today_of now opts) (KEnd tx (fold_left (fun t k => match k with KEnd _ d => d | _ => t end) opts' now))) p = true).
+    { apply A. rewrite in_app_iff. left. apply in_map. exact Hin. }
+    cbn [contrib_expr] in Hc. rewrite (predb_ok _ _ _ (pred_end tx _ p)) in Hc.
+    apply Z.ltb_lt in Hc. apply Z.leb_le. lia.
+Qed.
+
+Lemma all_limits_total now opts opts' period query l :
+  (forall k, In k opts <-> In k opts') ->
+  Forall (fun e => total_on e l) (all_limits now opts period query) ->
+  Forall (fun e => total_on e l) (all_limits now opts' period query).
+Proof.
+  intros H T. rewrite Forall_forall in *. intros e He.
+  unfold all_limits, period_limits in *.
+  rewrite (existsb_same_set is_begin opts opts' H), (existsb_same_set is_end opts opts' H) in T.
+  rewrite in_app_iff in He. destruct He as [He|He].
+  2:{ apply T. rewrite in_app_iff. right. exact He. }
+  apply in_map_iff in He as (k & <- & Hk).
+  apply contrib_total. destruct k; try exact I.
+  apply (T (contrib_expr (today_of now opts) (KLimit e))). rewrite in_app_iff. left. apply in_map, H, Hk.
+Qed.
+
+(* option sequences: the report depends on WHICH options were given, not on their order or
+   how often each was repeated *)
+Lemma option_sequence_lemma now opts opts' period query l :
+  (forall k, In k opts <-> In k opts') ->
+  Forall (fun e => total_on e l) (all_limits now opts period query) ->
+  report_with now opts period query l = report_with now opts' period query l.
+Proof.
+  intros H T. rewrite !report_with_posts.
+  pose proof (all_limits_total now opts opts' period query l H T) as T'.
+  rewrite !report_posts_sel by assumption. f_equal.
+  apply filter_ext_in. intros p _. unfold sel_all.
+  assert (H' : forall k, In k opts' <-> In k opts) by (intros k; symmetry; apply H).
+  destruct (forallb (fun e => predb e p) (all_limits now opts period query)) eqn:E1;
+    destruct (forallb (fun e => predb e p) (all_limits now opts' period query)) eqn:E2; try reflexivity.
+  - rewrite forallb_forall in E1.
+    assert (forallb (fun e => predb e p) (all_limits now opts' period query) = true).
+    { apply forallb_forall. apply (all_limits_implied now opts opts' period query p H E1). } congruence.
+  - rewrite forallb_forall in E2.
+    assert (forallb (fun e => predb e p) (all_limits now opts period query) = true).
+    { apply forallb_forall. apply (all_limits_implied now opts' opts period query p H' E2). } congruence.
+Qed.
